@@ -1532,6 +1532,14 @@ func (e *env) newSession(c Case) (*session, error) {
 		return newReplenishSession(e, c, false), nil
 	case "ReplenishPools":
 		return newReplenishSession(e, c, true), nil
+	case "FormContract":
+		return newLifecycleSession(e, c, lifeForm), nil
+	case "RenewContract":
+		return newLifecycleSession(e, c, lifeRenew), nil
+	case "RefreshFull":
+		return newLifecycleSession(e, c, lifeRefreshFull), nil
+	case "RefreshPartial":
+		return newLifecycleSession(e, c, lifeRefreshPartial), nil
 	case "LatestRevision":
 		return newLatestRevisionSession(e, c), nil
 	case "AccountBalance":
